@@ -10,7 +10,7 @@ LEVEL = "other"
 
 def run(ctx, res):
     res.rules_run += ["C10.index (C06.model restricted to sort / canonicalize_with and to index exactness: after the in-place sort the key index is exact again on every small object) — the object stays queryable",
-                      "C10.cover (children canonicalised before the parent is sorted, on every path; numbers replaced unconditionally) = C09.cover",
+                      "C10.cover (Value::canonicalize_with per variant: numbers replaced unconditionally, every array item canonicalised, objects delegated) = C09.cover; entries of objects: C10.total on the object model",
                       "C10.writes (canonicalisation assigns number payloads and reorders entries; nothing else is written)",
                       "C10.total (C06.model on canonicalize_with: the members of every small object end up ordered by the UTF-16 form of their keys, ties by value, whatever their initial order — including a key pair on which code-point and UTF-16 order disagree)"]
     C06.model_rule(ctx, res, only_index=True, rule="C10.index", ops={"sort", "canonicalize_with"})
